@@ -1009,6 +1009,36 @@ func trustedTemplateTypes(fact string, props []string, dirs ...string) {
 	emitStrList(fact, props, out)
 }
 
+// textTemplateImporters: every non-test file of the given directories that imports text/template (which does not escape).
+func textTemplateImporters(fact string, props []string, dirs ...string) {
+	out := []string{}
+	for _, d := range dirs {
+		ents, err := os.ReadDir(filepath.Join(repo, d))
+		if err != nil {
+			fail(fact, props, d+": "+err.Error())
+			return
+		}
+		for _, e := range ents {
+			n := e.Name()
+			if e.IsDir() || !strings.HasSuffix(n, ".go") || strings.HasSuffix(n, "_test.go") {
+				continue
+			}
+			f := parse(filepath.Join(d, n))
+			if f == nil {
+				fail(fact, props, filepath.Join(d, n)+" does not parse")
+				return
+			}
+			for _, im := range f.Imports {
+				if im.Path != nil && im.Path.Value == `"text/template"` {
+					out = append(out, filepath.Join(d, n))
+				}
+			}
+		}
+	}
+	sort.Strings(out)
+	emitStrList(fact, props, out)
+}
+
 // compositeLitKeys: the field names given in every composite literal of type <pkg>.<typ> inside one function
 // (e.g. mapstructure.DecoderConfig{DecodeHook: …, Result: …}) — each literal as one comma-joined string.
 func compositeLitKeys(fact string, props []string, rel, recv, fn, pkg, typ string) {
